@@ -10,6 +10,7 @@ from __future__ import annotations
 import fractions
 import itertools
 import z3
+from . import watchdog as _watchdog  # noqa: F401  (bounds every solver call in wall-clock time)
 
 
 class CheckerError(Exception):
